@@ -224,7 +224,12 @@ def gen_cases(tier, rng):
 
 
 def run_real(c):
-    return E.ENTRY[c["ep"]](c)
+    try:
+        return E.ENTRY[c["ep"]](c)
+    except Exception as e:
+        # the valid set-up of the entry point itself failed (e.g. the preparatory fit): an outcome, not a harness error
+        from common import canon_err
+        return "setup-" + canon_err(e) + ":-"
 
 
 def to_line(c):
